@@ -15,6 +15,7 @@ import os
 import sys
 import types
 import itertools
+import enum
 
 import z3
 
@@ -1106,7 +1107,105 @@ class Executor:
             out.append(Val(V._wrapb(acc), cur))
         return out
 
+    def needs_protocol(self, v):
+        """Instances of classes of the code under verification compare through their real dunder methods."""
+        if isinstance(v, SObj):
+            return True
+        if isinstance(v, (tuple, list)):
+            return any(self.needs_protocol(x) for x in v)
+        if isinstance(v, (SGuard,)):
+            return any(self.needs_protocol(x) for _, x in v.alts)
+        t = type(v)
+        return getattr(t, "__module__", "").startswith("bumpver") and not isinstance(v, (tuple, enum.Enum))
+
+    def rich_compare(self, sym, a, b, st, node):
+        """Python's comparison protocol: type(a).__op__(a, b); on NotImplemented the reflected
+        method of b; == falls back to identity, ordering to TypeError. Dunder methods of repo classes are
+        executed from their real source. Returns a bool-ish (single path required)."""
+        if isinstance(a, (SGuard, SEnum)) or isinstance(b, (SGuard, SEnum)):
+            alts = []
+            for g1, x in V.as_guards(a):
+                for g2, y in V.as_guards(b):
+                    alts.append((b_and(g1, g2), self.rich_compare(sym, x, y, st, node)))
+            return b_or(*[b_and(g, r) for g, r in alts])
+        if isinstance(a, (tuple, list)) and isinstance(b, (tuple, list)) and type(a) is type(b):
+            n = min(len(a), len(b))
+            if sym in ("==", "!="):
+                if len(a) != len(b):
+                    return sym == "!="
+                eq = b_and(*[self.rich_compare("==", x, y, st, node) for x, y in zip(a, b)])
+                return eq if sym == "==" else b_not(eq)
+            strict = {"<": "<", "<=": "<", ">": ">", ">=": ">"}[sym]
+            if len(a) == len(b):
+                res = sym in ("<=", ">=")
+            elif len(a) < len(b):
+                res = sym in ("<", "<=")
+            else:
+                res = sym in (">", ">=")
+            pairs = []
+            for i in range(n):
+                try:
+                    pairs.append((self.rich_compare("==", a[i], b[i], st, node), self.rich_compare(strict, a[i], b[i], st, node)))
+                except TypeError as e:
+                    # comparing position i would raise TypeError: it must be unreachable, i.e. some
+                    # earlier position already differs (obligation), and the result is decided there
+                    reach = b_and(*[eq for eq, _ in pairs])
+                    self.side_obligations.append((f"C16.{self.top.split('.')[-1]}.no_type_error_in_key_comparison", list(st.pc), b_not(reach), ("C16",)))
+                    res = False
+                    break
+            for eq, c in reversed(pairs):
+                res = b_ite(eq, res, c)
+            return res
+        name = {"<": "__lt__", "<=": "__le__", ">": "__gt__", ">=": "__ge__", "==": "__eq__", "!=": "__ne__"}[sym]
+        refl = {"<": "__gt__", "<=": "__ge__", ">": "__lt__", ">=": "__le__", "==": "__eq__", "!=": "__ne__"}[sym]
+        for obj, other, meth in ((a, b, name), (b, a, refl)):
+            r = self._call_dunder(obj, other, meth, st, node)
+            if r is not NotImplemented:
+                return r
+        if sym == "==":
+            return a is b
+        if sym == "!=":
+            return a is not b
+        raise TypeError(f"'{sym}' not supported between {type(a).__name__} and {type(b).__name__}")
+
+    def _call_dunder(self, obj, other, meth, st, node):
+        cls = obj.cls if isinstance(obj, SObj) else type(obj)
+        mod = getattr(cls, "__module__", "")
+        if not (mod.startswith("bumpver") or mod == "lexid"):
+            # builtin operands: their dunder knows nothing about repo classes
+            if self.needs_protocol(other):
+                return NotImplemented
+            sym = {"__lt__": "<", "__le__": "<=", "__gt__": ">", "__ge__": ">=", "__eq__": "==", "__ne__": "!="}[meth]
+            if sym == "==":
+                return v_eq(obj, other)
+            if sym == "!=":
+                return v_ne(obj, other)
+            return v_cmp(sym, obj, other)
+        raw = None
+        for k in cls.__mro__:
+            if meth in vars(k):
+                raw = vars(k)[meth]
+                break
+        if raw is None or not isinstance(raw, types.FunctionType):
+            return NotImplemented
+        fr = self.src.funcref(f"{raw.__module__}.{raw.__qualname__}")
+        s2 = st.fork()
+        rs = self.call_funcref(fr, [other], {}, s2, bound_self=obj)
+        vals = []
+        for r in rs:
+            if isinstance(r, Exc):
+                raise Unsupported(f"{meth} raised {r.exc.cls.__name__}")
+            extra = r.st.pc[len(st.pc):]
+            vals.append((z3.And(*extra) if extra else True, r.v))
+        if len(vals) == 1:
+            v = vals[0][1]
+            return v if v is NotImplemented else v_truthy(v)
+        return b_or(*[b_and(g, v_truthy(v)) for g, v in vals])
+
     def compare(self, op, a, b, st, node):
+        if not isinstance(op, (ast.Is, ast.IsNot, ast.In, ast.NotIn)) and (self.needs_protocol(a) or self.needs_protocol(b)):
+            sym = {ast.Eq: "==", ast.NotEq: "!=", ast.Lt: "<", ast.LtE: "<=", ast.Gt: ">", ast.GtE: ">="}[type(op)]
+            return self.rich_compare(sym, a, b, st, node)
         if isinstance(op, ast.Eq):
             return v_eq(a, b)
         if isinstance(op, ast.NotEq):
